@@ -20,8 +20,9 @@ Notation cube := (cube V).
 
 (* every array object is stored flat in row-major order; cubes keep their (lead, location) sizes *)
 Inductive obj : Type :=
-| OCube (c : cube)
-| OFlat (l : list (option V)).
+| OCube (c : cube)                               (* a cached per-field array, [time][lead][location] *)
+| OFlat (l : list (option V))                    (* a 1-D array handed out for a slice *)
+| OArr (nt : nat) (l : list (option V)).         (* a whole 3-D array handed out for axis = All: number of times, row-major content *)
 
 Inductive saxis : Type := SAll | SAx (ax : nat) (ai : nat).   (* axis number as in DataQ.axis_of *)
 
@@ -64,7 +65,7 @@ Definition write (s : state) (id : nat) (o : obj) : state :=
   {| heap := set_nth id o (heap s); fcache := fcache s; scache := scache s |}.
 
 Definition read (s : state) (id : nat) : obj := nth id (heap s) (OFlat []).
-Definition read_cube (s : state) (id : nat) : cube := match read s id with OCube c => c | OFlat _ => [] end.
+Definition read_cube (s : state) (id : nat) : cube := match read s id with OCube c => c | _ => [] end.
 
 Fixpoint alloc_all (s : state) (os : list obj) : state * list nat :=
   match os with
@@ -101,7 +102,7 @@ Definition ensure_field (d : data V) (s : state) (f : field) : result (state * l
 Definition slice_of (d : data V) (ax : axis) (ai : nat) (c : cube) : list (option V) := apply_axis V d ax ai c.
 
 Definition flat_of (o : obj) : list (option V) :=
-  match o with OCube c => flatten3 V c | OFlat l => l end.
+  match o with OCube c => flatten3 V c | OFlat l => l | OArr _ l => l end.
 
 (* write a flat list back into an object of the same shape *)
 Fixpoint take {A} (n : nat) (l : list A) : list A :=
@@ -121,7 +122,7 @@ Fixpoint refill_cube (c : cube) (l : list (option V)) : cube :=
   | p :: r => let '(p', l1) := refill_plane p l in p' :: refill_cube r l1
   end.
 Definition with_flat (o : obj) (l : list (option V)) : obj :=
-  match o with OCube c => OCube (refill_cube c l) | OFlat _ => OFlat l end.
+  match o with OCube c => OCube (refill_cube c l) | OFlat _ => OFlat l | OArr n _ => OArr n l end.
 
 Definition axis_table : nat -> axis := fun _ => AxNo.   (* overridden by the instance; see DataStateQ *)
 
@@ -174,9 +175,9 @@ Definition step (d : data V) (s : state) (rq : key) : result (state * list nat) 
                   if needs_op then
                     let cl := match clim with Some l => l | None => [] end in
                     let vals := map (fun p : option V * option V => anomaly V vsub vdiv (d_clim_divide d) (fst p) (snd p)) (combine (flatten3 V c) cl) in
-                    let '(st3, nid) := alloc st2 (with_flat (OCube c) vals) in OK (st3, out ++ [nid])
+                    let '(st3, nid) := alloc st2 (OArr (length c) vals) in OK (st3, out ++ [nid])
                   else if copy_all then
-                    let '(st3, nid) := alloc st2 (OCube c) in OK (st3, out ++ [nid])
+                    let '(st3, nid) := alloc st2 (OArr (length c) (flatten3 V c)) in OK (st3, out ++ [nid])
                   else OK (st2, out ++ [fid])             (* the cached array itself *)
               | SAx ax ai =>
                   let flat := slice_of d (axis_of ax) ai c in
@@ -202,7 +203,7 @@ Definition step (d : data V) (s : state) (rq : key) : result (state * list nat) 
                       cur s2 in
             let s4 := match cur with
                       | id0 :: _ => match read s3 id0 with
-                                    | OCube [] =>    (* shape[0] == 0: replaced by one NaN per field *)
+                                    | OCube [] | OArr O _ =>    (* shape[0] == 0: replaced by one NaN per field *)
                                         let '(st, ids) := alloc_all s3 (map (fun _ => OFlat [None]) cur) in
                                         (st, ids)
                                     | _ => (s3, cur)
